@@ -1027,3 +1027,25 @@ _m("C16", "Proved for EVERY type environment, type descriptor and datum of the s
    "each re-checked by the run on every recorded spelling and on samples inside Coq.",
    "Coq proof (nested induction on the datum, generalised over type and fuel; sorted-insertion lemmas for the serde_json side) + "
    "correspondence on 71 root types with a recording serializer, recorded float spellings, ill-typed inputs and repeated-key objects")
+
+
+# ----------------------------------------------------------------------------- static tie of the constant tables
+# lib/const_translate.py regenerates coq/theories/Generated/Consts.v from the tree under check at the start of the check
+# of every property below (pre_build, same mechanism as the macro tie of C19) and Proofs/ConstsTie.v is re-established
+# against it; see DESIGN.md section 4, "Translator tie for constant tables".
+import const_translate  # noqa: E402
+
+CONST_TIE_TRUST = ("static tie of the constant tables (lib/const_translate.py): its reading and evaluation of the Rust fragment the "
+                   "sites are written in (literals, ranges, `|` patterns, matches!, match/if, casts, struct literals, enum paths), "
+                   "and that agreement on the evaluated code points (char_domain: U+0000..U+02FF and boundary points up to U+10FFFF) "
+                   "extends to all code points on the source side")
+for _pid in const_translate.PROPS_CONCERNED:
+    _sites = [s for s in const_translate.SITES if _pid in s["props"]]
+    PROPS[_pid]["pre_build"] = [const_translate.hook(_pid)]
+    PROPS[_pid]["trusted"] = list(PROPS[_pid].get("trusted", [])) + [
+        CONST_TIE_TRUST + "; sites of this property: " + ", ".join(s["id"] for s in _sites)]
+    if "manifest" in PROPS[_pid]:
+        PROPS[_pid]["manifest"]["technique"] += (
+            " + static translator tie of the constant tables (" + ", ".join(s["id"] for s in _sites) + ": evaluated from the Rust "
+            "source by lib/const_translate.py on every run and proved equal to the data computed from the model's own functions, "
+            "Proofs/ConstsTie.v)")
